@@ -108,6 +108,11 @@ def plan(tier, seed):
     for sc in SCRIPTS_T5:
         p.append(("sim", dict(skeleton="T5", script=sc, date="first", n=2, toggles=["reset", "set", "reset"])))
     p.append(("sim", dict(skeleton="T1", script=[num("job", "data_transferred")], second=[num("srv", "power")], date="interior", toggles=["set", "reset"])))
+    # simulations whose recomputation fails with another exception than ValueError (a zero request duration divides by
+    # zero; a storage given to a second server is refused with PermissionError)
+    for d in ("first", "interior"):
+        p.append(("sim", dict(skeleton="T1", script=[num("job", "request_duration", value=0)], date=d, toggles=["set", "reset"])))
+    p.append(("sim", dict(skeleton="T5", script=[L("srv2", "storage", "st")], date="interior", n=2, toggles=["set", "reset"])))
     # a dated simulation refused by the allowed-values check (on-premise server with a fixed count switched to autoscaling)
     for d in ("first", "interior"):
         p.append(("sim", dict(skeleton="T5", args={"type1": "on-premise", "type2": "serverless", "fixed1": 40},
